@@ -39,11 +39,24 @@ theorem C20_tables_are_the_standard :
 
 /-- **C20 (model = standard).** With the selections as extracted from the source, the executable model
 of `rgb2xyz`, `xyz2rgb` and `rgb2lab` (Float) *is* the specification (linear segment below the knee,
-power law above; cube root above `(6/29)³`): the functions the driver runs coincide. On the tree before
+power law above; cube root above `(6/29)³`), which is written with the standards' own literal numbers: the functions the driver prints as `xyz`/`xyzspec`, `lab`/`labspec` coincide on every input. On the tree before
 the repair the extracted flags were `false` and this theorem did not hold. -/
-theorem C20_model_is_standard :
-    rgb2xyz = rgb2xyzSpec ∧ xyz2rgb = xyz2rgbSpec ∧ rgb2lab = rgb2labSpec := by
-  refine ⟨rfl, rfl, rfl⟩
+theorem C20_model_is_standard (rgb xyz : List Float) :
+    rgb2xyz rgb = rgb2xyzSpec rgb ∧ xyz2rgb xyz = xyz2rgbSpec xyz ∧ rgb2lab rgb = rgb2labSpec rgb := by
+  have h1 : ∀ c, srgbToLinearWith fwdLowWhenBelow c = srgbToLinearStd c := fun c => by
+    simp [srgbToLinearWith, srgbToLinearStd, fwdLowWhenBelow, srgbScaleF, srgbAF, srgbGammaF, srgbSlopeF, srgbKneeF]
+  have h2 : ∀ v, linearToSrgbWith invLowWhenBelow v = linearToSrgbStd v := fun v => by
+    simp [linearToSrgbWith, linearToSrgbStd, invLowWhenBelow, srgbAInvF, srgbSlopeInvF, srgbKneeInvF]
+  have h3 : ∀ t, labFWith labSmallWhenBelow labKneeExp t = labFStd t := fun t => by
+    simp [labFWith, labFStd, labSmallWhenBelow, labKneeExp, labDeltaNumF, labDeltaDenF]
+  have e1 : ∀ l, rgb2xyz l = rgb2xyzSpec l := fun l => by
+    simp only [rgb2xyz, rgb2xyzWith, rgb2xyzSpec, funext h1]; rfl
+  have e3 : ∀ l, xyz2lab l = xyz2labSpec l := fun l => by
+    rcases l with _ | ⟨x, _ | ⟨y, _ | ⟨z, _ | ⟨w, t⟩⟩⟩⟩ <;>
+      simp [xyz2lab, xyz2labWith, xyz2labSpec, labWhiteF, h3]
+  refine ⟨e1 rgb, ?_, ?_⟩
+  · simp only [xyz2rgb, xyz2rgbWith, xyz2rgbSpec, funext h2]; rfl
+  · simp only [rgb2lab, rgb2labSpec, e1, e3]
 
 /-- **C20-T1 (white and black).** In exact arithmetic the matrix maps linear white `(1,1,1)` to the
 D65 white point `(0.9505, 1, 1.089)` — the `Y` row sums to 1 exactly — and black to 0. -/
@@ -90,7 +103,7 @@ theorem C20_sepia_clipped (r g b : Int) :
         split <;> split <;> simp_all
       exact_mod_cast this
     · have : (if (if q < 255 then q else 255) < 0 then 0 else (if q < 255 then q else 255)) ≤ (255 : Rat) := by
-        (split <;> split <;> simp_all) <;> linarith
+        (split <;> split <;> simp_all); all_goals linarith
       have h2 := Rat.floor_le (if (if q < 255 then q else 255) < 0 then 0 else (if q < 255 then q else 255))
       have : ((Rat.floor (if (if q < 255 then q else 255) < 0 then 0 else (if q < 255 then q else 255)) : Int) : Rat) ≤ 255 := by
         linarith
